@@ -158,6 +158,29 @@ Fixpoint live_ok (num_regs : Z) (code : list binstr) (live : list Z) (pc : Z) (l
   | _, _ => false
   end.
 
+(** ** validation of the dataflow solutions.  The fixpoints above are only *candidates*: the two
+    passes below check directly that [inn] under-approximates the temporaries written on every path
+    (entry fact 0; [inn[s] ⊆ inn[pc] ∪ defs] along every edge) and that [lin] over-approximates the
+    temporaries still needed ([uses ∪ (∪ lin[succ] \ defs) ⊆ lin[pc]]).  [BCWfProofs.v] proves that
+    these inequalities imply the path-based statements of property C11, so the soundness of the
+    checker does not depend on how the candidates were computed. *)
+Fixpoint fwd_valid (full : Z) (code : list binstr) (pc : Z) (inn : arr) : bool :=
+  match code with
+  | [] => true
+  | i :: rest =>
+      forallb (fun s => bset_sub (aget inn full s) (Z.lor (aget inn full pc) (defs i))) (succs pc i)
+      && fwd_valid full rest (pc + 1) inn
+  end.
+
+Fixpoint bwd_valid (code : list binstr) (pc : Z) (lin : arr) : bool :=
+  match code with
+  | [] => true
+  | i :: rest =>
+      let out := fold_left (fun acc s => Z.lor acc (aget lin 0 s)) (succs pc i) 0 in
+      bset_sub (Z.lor (uses i) (Z.land out (Z.lnot (defs i)))) (aget lin 0 pc)
+      && bwd_valid rest (pc + 1) lin
+  end.
+
 Definition bc_wf (num_regs : Z) (fuse : bool) (p : bprog) : bool :=
   let code := bp_code p in
   let len := Z.of_nat (length code) in
@@ -167,11 +190,11 @@ Definition bc_wf (num_regs : Z) (fuse : bool) (p : bprog) : bool :=
   && Nat.eqb (length (bp_live p)) (length code)
   && all_instr_ok p fuse len 0 code
   && match fwd_fix fuel full code (aset (PositiveMap.empty Z) 0 0) with
-     | Some inn => uses_defined full code 0 inn
+     | Some inn => (aget inn full 0 =? 0) && fwd_valid full code 0 inn && uses_defined full code 0 inn
      | None => false
      end
   && match bwd_fix fuel code (PositiveMap.empty Z) with
-     | Some lin => live_ok num_regs code (bp_live p) 0 lin
+     | Some lin => bwd_valid code 0 lin && live_ok num_regs code (bp_live p) 0 lin
      | None => false
      end.
 
@@ -187,9 +210,11 @@ Definition bc_wf_why (num_regs : Z) (fuse : bool) (p : bprog) : Z :=
   else match fwd_fix fuel full code (aset (PositiveMap.empty Z) 0 0) with
        | None => 40
        | Some inn =>
-           if negb (uses_defined full code 0 inn) then 4
+           if negb ((aget inn full 0 =? 0) && fwd_valid full code 0 inn) then 41
+           else if negb (uses_defined full code 0 inn) then 4
            else match bwd_fix fuel code (PositiveMap.empty Z) with
                 | None => 50
-                | Some lin => if live_ok num_regs code (bp_live p) 0 lin then 0 else 5
+                | Some lin => if negb (bwd_valid code 0 lin) then 51
+                              else if live_ok num_regs code (bp_live p) 0 lin then 0 else 5
                 end
        end.
